@@ -408,6 +408,12 @@ def deliver (s : State) (m : Msg) : State × Outcome Res :=
   | .err => (s, .err)
   | .panic => (s, .panic)
 
+/-- `MsgUpdateDenomParam` (ValidateBasic + handler): none = rejected, nothing changes -/
+def updateDenom (s : State) (authOk : Bool) (d : String) : Option State :=
+  if !authOk || d.length = 0 || !validDenom d then none
+  else if s.pools.length > 0 then none
+  else some { s with denom := d }
+
 /-! ## queries -/
 
 structure Summary where
